@@ -1,6 +1,6 @@
 SPECIFICATION Spec
 CONSTANTS TS = 2 HSA = 5 G = 1 NApps = 1 Others = {1, 3, 126} AppTargets = {9}
-  MaxDepth = 7 WithPartial = FALSE Warm = FALSE WarmPS = 1 WarmNS = 3 Emit = "none"
+  MaxDepth = 7 WithPartial = FALSE Held = FALSE Warm = FALSE WarmPS = 1 WarmNS = 3 Emit = "none"
   FixF2 = TRUE FixF3 = TRUE FixF14 = FALSE
 INVARIANT NoPanic
 INVARIANT RulesOk
